@@ -6,7 +6,7 @@
 From Coq Require Import String ZArith List Bool Permutation.
 Import ListNotations.
 From RV Require Import Model.HashModel Proofs.HashModel.
-From RV Require Import Gen.C06Sites Model.C06Chk Proofs.C06Sites.
+From RV Require Import Gen.C06Sites Gen.C06BinSites Model.C06Chk Proofs.C06Sites.
 
 (* --- hash containers ------------------------------------------------------------------------- *)
 Theorem C06_hash_uses_lookup_only :
@@ -58,6 +58,17 @@ Print Assumptions C06_fixed_hasher.
 Theorem C06_no_shared_mutable_state : forallb ssite_ok c06_shared_sites = true.
 Proof. exact shared_sites_allowed. Qed.
 Print Assumptions C06_no_shared_mutable_state.
+
+(* the same obligations for the two command-line front ends (hash containers lookup-only, no shared mutable state
+   beyond the stated allowlist) *)
+Theorem C06_binaries_ledger : bin_ledger_ok = true.
+Proof. exact bin_ledger. Qed.
+Print Assumptions C06_binaries_ledger.
+
+(* the scanner sees statics / thread_local / locks / atomics in nested inline modules, feature-gated code and fn bodies *)
+Theorem C06_scanner_selftest : c06_scanner_selftest = true.
+Proof. exact scanner_selftest. Qed.
+Print Assumptions C06_scanner_selftest.
 
 Theorem C06_forbid_unsafe : forbid_ok c06_forbid_unsafe = true.
 Proof. exact forbid_unsafe_both. Qed.
@@ -124,7 +135,10 @@ Example C06_checker_rejects_iteration :
   /\ hsite_ok {| hs_file := "x"; hs_fn := "f"; hs_owner := "Cache"; hs_name := "paint"; hs_method := "values"; hs_line := 1 |} = false
   /\ hsite_ok {| hs_file := "x"; hs_fn := "f"; hs_owner := "Cache"; hs_name := "paint"; hs_method := "frobnicate"; hs_line := 1 |} = false
   /\ ssite_ok {| ss_file := "crates/usvg/src/parser/converter.rs"; ss_fn := ""; ss_kind := "static_mut"; ss_text := ""; ss_line := 1 |} = false
-  /\ ssite_ok {| ss_file := "crates/usvg/src/text/mod.rs"; ss_fn := ""; ss_kind := "Rc"; ss_text := ""; ss_line := 1 |} = false.
+  /\ ssite_ok {| ss_file := "crates/usvg/src/text/mod.rs"; ss_fn := ""; ss_kind := "Rc"; ss_text := ""; ss_line := 1 |} = false
+  /\ ssite_ok {| ss_file := "crates/resvg/src/image.rs"; ss_fn := ""; ss_kind := "static_interior"; ss_text := "static DECODED_IMAGES: Mutex<Vec<u8>> = Mutex::new(Vec::new());"; ss_line := 1 |} = false
+  /\ bin_ssite_ok {| ss_file := "crates/resvg/src/main.rs"; ss_fn := "load_fonts"; ss_kind := "time"; ss_text := ""; ss_line := 1 |} = false
+  /\ hsite_ok {| hs_file := "crates/resvg/src/main.rs"; hs_fn := "load_fonts"; hs_owner := "local"; hs_name := "font_files"; hs_method := "for_in"; hs_line := 1 |} = false.
 Proof. vm_compute. repeat split; reflexivity. Qed.
 Example C06_make_mut_applies :
   forall (D : Type) (w : world D) i c f, nth_error (holders D w) i = Some c ->
